@@ -393,6 +393,16 @@ fn gen_code_and_bits(rng: &mut Rng, ctx: &Ctx) -> (Vec<u8>, usize, Vec<u8>) {
     let allowed = rng.range(0, 2);
     let n = gen_len(rng, ctx, 1);
     let mut data = gen_bits(rng, n);
+    let mut code = code;
+    if rng.chance(1, 4) {
+        // The streams are bytes: the documented comparison is equality of the bytes,
+        // whatever their values (a 3 is neither a 1 nor a 0).
+        for b in data.iter_mut().chain(code.iter_mut()) {
+            if rng.chance(1, 3) {
+                *b = *rng.pick(&[2u8, 3, 255, 254, 128, 129]);
+            }
+        }
+    }
     // plant the code a few times
     if l > 0 && n > l {
         for _ in 0..rng.range(0, 6) {
@@ -923,6 +933,17 @@ fn b_il2p(rng: &mut Rng, ctx: &Ctx) -> Built {
     if n > 0 {
         for _ in 0..rng.range(0, 6) {
             tags.push(InTag { pos: rng.below(n), key: "sync".into(), val: TagValue::Bool(true) });
+        }
+    }
+    if ctx.tagged && n > 0 {
+        // tags that are none of the deframer's business, also on and right before the sync samples
+        let sync_at: Vec<usize> = tags.iter().map(|t| t.pos).collect();
+        for _ in 0..rng.range(0, 6) {
+            let pos = if !sync_at.is_empty() && rng.chance(1, 2) { rng.pick(&sync_at).saturating_sub(rng.below(3)) } else { rng.below(n) };
+            tags.push(InTag { pos, key: (*rng.pick(&["burst", "VectorSource::start", "x"])).into(), val: TagValue::U64(rng.next() % 7) });
+        }
+        if rng.chance(1, 2) {
+            tags.sort_by_key(|t| t.pos);
         }
     }
     inp.set_tags(tags);
